@@ -629,6 +629,107 @@ func runC01(t *testing.T, c *Case, o RunOpts) *Result {
 	return res
 }
 
+// ---------------------------------------------------------------------------
+// Independent writers and readers on different goroutines must not
+// interfere (package-level pools, shared backing arrays): two or three
+// complete round trips run as clients of the simulator, which decides the
+// interleaving at every call into the medium (the sink yields before it
+// consumes the bytes, the source before it hands them out).
+
+type PairPlan struct {
+	Seq  []C01Plan `json:"seq,omitempty"`
+	Feat []C02Plan `json:"feat,omitempty"`
+}
+
+func smallSeqPlan(r *simrt.RNG) C01Plan {
+	var pl C01Plan
+	json.Unmarshal(genC01(r).Plan, &pl)
+	if len(pl.Recs) > 3 {
+		pl.Recs = pl.Recs[:3]
+	}
+	for i := range pl.Recs {
+		rec := &pl.Recs[i]
+		if len(rec.Letters) > 40 {
+			rec.Letters = rec.Letters[:r.Range(1, 40)]
+		}
+		if len(rec.Quals) > len(rec.Letters) {
+			rec.Quals = rec.Quals[:len(rec.Letters)]
+		}
+		if len(rec.Name) > 12 {
+			rec.Name = rec.Name[:12]
+		}
+		if len(rec.Desc) > 20 {
+			rec.Desc = strings.TrimSpace(rec.Desc[:20])
+		}
+	}
+	pl.WriteFault, pl.Reject = 0, 0
+	pl.Delivery = simio.NoFault([]string{"all", "uniform", "one"}[r.Intn(3)], r.Uint64())
+	return pl
+}
+
+func genPairC01(r *simrt.RNG) *Case {
+	var pp PairPlan
+	for n := r.Range(2, 3); n > 0; n-- {
+		pp.Seq = append(pp.Seq, smallSeqPlan(r))
+	}
+	return &Case{Prop: "C01", Kind: "pair", Plan: marshalPlan(pp),
+		Sched: Sched{Strategy: fmt.Sprintf("rw:%g", []float64{0.2, 0.5, 1}[r.Intn(3)]), Seed: r.Uint64()}}
+}
+
+func runPair(t *testing.T, c *Case, o RunOpts) *Result {
+	noteCase(c)
+	defer progress.Add(1)
+	var pp PairPlan
+	if err := json.Unmarshal(c.Plan, &pp); err != nil {
+		return &Result{ToolErr: err.Error()}
+	}
+	n := len(pp.Seq) + len(pp.Feat)
+	return execSim(t, c, o, 200000, true, func(sim *simrt.Sim) func() {
+		yield := func() { sim.Yield("medium") }
+		for i := range pp.Seq {
+			pl := &pp.Seq[i]
+			i := i
+			sim.Client(fmt.Sprintf("roundtrip%d", i), func() {
+				sink := &simio.Sink{OnWrite: yield}
+				text, _, v := writeSeqsTo(pl, sink)
+				if v == nil {
+					src := simio.NewSource(text, pl.Delivery)
+					src.OnRead = yield
+					var got []gotSeq
+					got, v = readSeqs(pl, src, len(pl.Recs)+2)
+					if v == nil {
+						v = compareSeqs(pl, got)
+					}
+				}
+				if v != nil {
+					sim.Fail(v.Class, v.Site+"-concurrent-instances", fmt.Sprintf("%d independent writer/reader pairs on different goroutines, pair %d: %s", n, i, v.Text))
+				}
+			})
+		}
+		for i := range pp.Feat {
+			pl := &pp.Feat[i]
+			i := i
+			sim.Client(fmt.Sprintf("roundtrip%d", len(pp.Seq)+i), func() {
+				sink := &simio.Sink{OnWrite: yield}
+				text, want, _, v := writeFeatsTo(pl, sink)
+				if v == nil {
+					src := simio.NewSource(text, pl.Delivery)
+					src.OnRead = yield
+					var got []string
+					got, v = readFeats(pl, src, len(want)+2)
+					if v == nil {
+						v = compareFeats("c02-"+pl.Format, want, got)
+					}
+				}
+				if v != nil {
+					sim.Fail(v.Class, v.Site+"-concurrent-instances", fmt.Sprintf("%d independent writer/reader pairs on different goroutines, pair %d: %s", n, i, v.Text))
+				}
+			})
+		}
+		return nil
+	})
+}
+
 // hugeC01: a FASTQ record of 3 MiB + 17 letters between two small ones, and a
 // FASTA record of 17 MiB + 1 letters on a single line.
 func hugeC01() []*Case {
@@ -640,6 +741,9 @@ func hugeC01() []*Case {
 }
 
 func shrinkC01(c *Case) []*Case {
+	if c.Kind == "pair" {
+		return nil
+	}
 	var pl C01Plan
 	json.Unmarshal(c.Plan, &pl)
 	var out []*Case
@@ -709,10 +813,20 @@ func init() {
 					w.Report(h, runC01(t, h, RunOpts{}))
 				}
 			}
+			if r.Intn(12) == 0 {
+				c := genPairC01(r)
+				w.Report(c, runPair(t, c, RunOpts{}))
+				return
+			}
 			c := genC01(r)
 			w.Report(c, runC01(t, c, RunOpts{}))
 		},
-		Run:    runC01,
+		Run: func(t *testing.T, c *Case, o RunOpts) *Result {
+			if c.Kind == "pair" {
+				return runPair(t, c, o)
+			}
+			return runC01(t, c, o)
+		},
 		Shrink: shrinkC01,
 	})
 }
